@@ -249,7 +249,11 @@ class World(object):
                 # a failing parse through the shared reader must leave no
                 # state behind that a later parse could pick up
                 try:
-                    self.shared_reader.parse(io.BytesIO(op['data']))
+                    t = self.shared_reader.parse(io.BytesIO(op['data']))
+                    self._add(t)
+                    touched = len(self.live) - 1
+                    t2 = self.ns.DiffX.from_bytes(op['data'])
+                    self._add(t2)
                 except Exception:
                     pass
             elif name == 'stats':
@@ -446,6 +450,7 @@ ASSIGNMENTS = [
     ('preamble_encoding', 'utf-8'), ('preamble_indent', 2),
     ('preamble_line_endings', 'dos'), ('preamble_mimetype', 'text/markdown'),
     ('meta', {'new': [1, {'deep': True}]}), ('meta', {}),
+    ('meta', None), ('preamble', None), ('diff', None), ('encoding', None),
     ('meta', {'stats': {'insertions': 1, 'custom': 2}, 'path': 'p'}),
     ('meta_encoding', 'utf-32'), ('meta_format', 'json'),
     ('diff', b'--- a\n+++ b\n@@ -1 +1 @@\n-x\n+y\n'), ('diff', b''),
@@ -517,7 +522,8 @@ def machine(st, target):
               which=hs.sampled_from(['self', 'meta', 'preamble', 'diff']),
               key=hs.sampled_from(['encoding', 'format', 'indent',
                                    'line_endings', 'type', 'version']),
-              value=hs.sampled_from(['$del', '$del', 'utf-8', 'json', 'unix']))
+              value=hs.sampled_from(['$del', '$del', 'utf-8', 'json', 'unix',
+                                     None, 4, 0]))
         def mutate_options(self, t, path, which, key, value):
             self.step({'op': 'mutate_options', 't': t, 'path': path,
                        'which': which, 'key': key, 'value': value})
@@ -553,6 +559,8 @@ def machine(st, target):
             b'#diffx: version=1.0\n#.change:\n#..file:\n#...meta: length=5\n{"a"',
             b'#diffx: encoding=utf-16, version=1.0\n#.preamble: length=3\nabc',
             b'#diffx: version=9\n', b'garbage', b'',
+            b'#diffx: version=1.0\n#.meta: length=5\nnull\n#.change:\n'
+            b'#..file:\n#...meta: length=5\nnull\n',
             b'#diffx: version=1.0\n#.change: encoding=latin-1\n#..file:\n'
             b'#...meta: length=3\n[]\n']))
         def parse_garbage(self, data):
